@@ -42,7 +42,7 @@ TOLERANCES = {
     "stark per-bin / totals, default GaussianQuadrature(1e-5), bins <= FWHM/2": "3e-4 R per bin and in total: the quadrature's stopping rule compares successive orders and the profile has a cusp at the line centre; measured worst error of the bin holding the centre over 2400 sub-bin offsets: 1e-6 R (bin = 0.1 FWHM), 2.1e-5 (0.25), 7.2e-5 (0.5), 3.2e-3 (0.85), 8e-4 (1), 3.8e-3 (2), 0.33 (50) -> bins > FWHM/2 belong to the known finding C02-stark-coarse-bins; + tail mass 5.05e-4 R allowed above (whole-bin treatment at the +-50 FWHM cut)",
     "stark with GaussianQuadrature(relative_tolerance=1e-10), bins <= FWHM/2": "2e-6 R",
 }
-REQUIRED_LABELS = ["shape:two-states:same-centre", "shape:two-states:moved", "shape:mse-resolved", "shape:win:cut", "shape:win:contain", "shape:B:oblique", "shape:pol:pi", "shape:pol:sigma", "shape:zero-width"]
+REQUIRED_LABELS = ["starkfine:integrator:fixed-order", "shape:two-states:same-centre", "shape:two-states:moved", "shape:mse-resolved", "shape:win:cut", "shape:win:contain", "shape:B:oblique", "shape:pol:pi", "shape:pol:sigma", "shape:zero-width"]
 
 C = K.c
 AMU = K.atomic_mass
@@ -81,6 +81,11 @@ def _zcomp(draw):
             draw(st.sampled_from([0.0, 0.1, 0.5]))] for _ in range(n)]
     if lst[0][2] == 0.0:
         lst[0][2] = 0.5     # a group whose ratios are all zero cannot carry its share of the radiance: outside the domain
+    if draw(st.integers(0, 3)) == 0:
+        # "almost normalised" tables (ratios printed to three or four decimals): the documented re-normalisation still applies
+        near = {1: [[1.0005], [0.9992]], 2: [[0.4995, 0.5], [0.333, 0.6675]], 3: [[0.333, 0.333, 0.333], [0.25, 0.2505, 0.5]]}[n]
+        for comp, r in zip(lst, draw(st.sampled_from(near))):
+            comp[2], comp[3] = r, 0.0
     return lst
 
 
@@ -731,6 +736,9 @@ def strategy_fine_stark():
         case["integ_ops"] = draw(st.lists(st.one_of(
             st.tuples(st.just("min_order"), st.integers(1, 30)), st.tuples(st.just("max_order"), st.integers(30, 64)),
             st.tuples(st.just("relative_tolerance"), st.sampled_from([1e-10, 1e-10, 1e-7]))), min_size=0, max_size=4).map(lambda l: [list(x) for x in l]))
+        fixed = draw(st.sampled_from([0, 0, 0, 40, 50, 64]))
+        if fixed:       # a fixed-order rule (min_order == max_order), which the documented parameters allow
+            case["integ_ops"] = [["max_order", 64], ["min_order", fixed], ["max_order", fixed]]
         case.pop("multiplet", None), case.pop("zs", None), case.pop("pz", None), case.pop("mse", None)
         return case
     return s()
@@ -779,6 +787,15 @@ def run_fine_stark(case, ctx):
         ctx.check(np.array_equal(got, got2), "integrator-setters",
                   lambda: "integrator configured through setters %r differs from one constructed with %r: max diff %r x bin width"
                   % (case["integ_ops"], final, float(np.max(np.abs(got - got2)) * d)))
+    if final["min_order"] == final["max_order"]:
+        # a fixed-order Gauss-Legendre rule of order >= 40: no convergence control, so only the totals are judged, loosely
+        # (the kink of the profile at the line centre costs such a rule up to a few 1e-3 of the radiance in one bin)
+        ctx.label("integrator:fixed-order")
+        tot_g, tot_e = float(got.sum() * d), float(expected_bins(comps, Rr, wmin, wmax, bins).sum() * d)
+        ctx.check(abs(tot_g - tot_e) <= 2e-2 * Rr, "fixed-order-total",
+                  lambda: "fixed-order rule (order %d): total %r, expected %r" % (final["max_order"], tot_g, tot_e))
+        ctx.nt(comps[0][3] > 0)
+        return
     if final["relative_tolerance"] > 1e-10 or final["min_order"] > 1:
         # the sharp absolute tolerance below is stated for relative_tolerance 1e-10 starting at order 1
         ctx.nt(comps[0][3] > 0)
